@@ -294,6 +294,27 @@ fn enumerate() {
         if v.to_vec() != pm.data { cx.fail("to_vec (blocked copy)", &format!("shape={shape:?} permuted={perm:?}")); }
         if v.to_tensor().to_vec() != pm.data { cx.fail("to_tensor (blocked copy)", &format!("shape={shape:?} permuted={perm:?}")); }
     }
+    // blocked-copy sources that are NOT plain transposes: a stepped slice followed by a permutation,
+    // so that the inner stride is a multiple of 16 (>= 32) while the other stride of the tile is > 1
+    // (row-major and column-major), with at least one full 4x4 tile. Oracle: the view indexed
+    // element by element.
+    for (shape, axis, step, perm) in [(vec![8usize, 64], 1usize, 2isize, vec![1usize, 0]), (vec![6, 96], 1, 3, vec![1, 0]),
+                                      (vec![2, 8, 64], 2, 2, vec![0, 2, 1]), (vec![16, 64], 0, 2, vec![0, 1]), (vec![64, 8], 0, 4, vec![1, 0])] {
+        if cfg!(miri) && shape.len() != 2 { continue; }
+        let n: usize = shape.iter().product();
+        let t = Tensor::<i32>::from_data(shape.as_slice(), (0..n as i32).collect::<Vec<_>>());
+        let mut items: Vec<SliceItem> = (0..shape.len()).map(|_| SliceItem::full_range()).collect();
+        items[axis] = SliceItem::range(0, None, step);
+        let Ok(sv) = t.view().try_slice_dyn(items.as_slice()) else { continue };
+        for v in [sv.permuted(&perm), sv.clone()] {
+            let want = view_model(&v);
+            cx.cases += 1;
+            let desc = format!("shape={shape:?} axis {axis} step {step} view shape={:?} strides={:?}", v.shape(), v.strides());
+            if v.to_vec() != want.data { cx.fail("to_vec (blocked copy, strided tile)", &desc); }
+            if v.to_tensor().to_vec() != want.data { cx.fail("to_tensor (blocked copy, strided tile)", &desc); }
+            if v.to_contiguous().to_vec() != want.data { cx.fail("to_contiguous (blocked copy, strided tile)", &desc); }
+        }
+    }
     println!("searched {} (source, operation, argument) combinations", cx.cases);
     assert!(cx.found == 0, "{} checks failed", cx.found);
 }
